@@ -18,6 +18,7 @@ EXPLANATION = (
     "means no tracked task, and the set of tracked tasks is only changed by push (add) and by removing tasks that finished "
     "(never rebound), so a running handler cannot be forgotten. This claim is thin by nature (three guards); eventual "
     "dispatch, per-source order under slow handlers and timing are liveness and are not claimed."
+    " C15.1 also (shared with C13.4): the time queued is the time given."
 )
 TRUSTED = ["CPython ast parser", "sa.cfg statement CFG"]
 
